@@ -122,13 +122,31 @@ type Loaded struct {
 	PkgName string
 }
 
-func GoEnv() []string {
+// GoEnv returns the environment for go commands run against the repository.
+// The repository's go.mod/go.sum are copied into modDir and passed with
+// -modfile, so that go commands (which, under -mod=mod, rewrite go.mod when an
+// injected harness imports an indirect dependency directly) never touch /repo.
+func GoEnv(modDir string) []string {
 	env := os.Environ()
-	env = append(env, "GOFLAGS=-mod=mod", "GOPROXY=off", "GOSUMDB=off", "GOTOOLCHAIN=local", "GOWORK=off")
+	flags := "-mod=mod"
+	if modDir != "" {
+		os.MkdirAll(modDir, 0o755)
+		ok := true
+		for _, f := range []string{"go.mod", "go.sum"} {
+			b, err := os.ReadFile(filepath.Join(RepoRoot, f))
+			if err != nil || os.WriteFile(filepath.Join(modDir, f), b, 0o644) != nil {
+				ok = false
+			}
+		}
+		if ok {
+			flags += " -modfile=" + filepath.Join(modDir, "go.mod")
+		}
+	}
+	env = append(env, "GOFLAGS="+flags, "GOPROXY=off", "GOSUMDB=off", "GOTOOLCHAIN=local", "GOWORK=off")
 	return env
 }
 
-func Load(h *HarnessSpec, hdir string) (*Loaded, error) {
+func Load(h *HarnessSpec, hdir, modDir string) (*Loaded, error) {
 	ov, pkgName, stubs, err := h.Overlay(hdir, "symbolic")
 	if err != nil {
 		return nil, err
@@ -137,7 +155,7 @@ func Load(h *HarnessSpec, hdir string) (*Loaded, error) {
 		Mode:    packages.LoadAllSyntax,
 		Dir:     h.PkgDir(),
 		Overlay: ov,
-		Env:     GoEnv(),
+		Env:     GoEnv(modDir),
 		Tests:   false,
 	}
 	pattern := "."
